@@ -24,6 +24,9 @@ SHAPES = {
     "class-method": [("<module>", "module", None), ("C", "class", 0), ("m", "def", 1)],
     "def-two-nested": [("<module>", "module", None), ("f", "def", 0), ("g", "def", 1), ("k", "def", 1)],
     "method-nested": [("<module>", "module", None), ("C", "class", 0), ("m", "def", 1), ("g", "def", 2)],
+    # functions defined inside a compound statement (if-block) of the module / of a function
+    "block-def": [("<module>", "module", None), ("f", "blockdef", 0)],
+    "def-block-def": [("<module>", "module", None), ("f", "def", 0), ("g", "blockdef", 1)],
 }
 ROLES = ["none", "A", "R", "AR", "G", "N"]
 
@@ -54,9 +57,15 @@ def render(shape, roles, name="a"):
             if ck == "def":
                 params = "self" if kind == "class" else ""
                 lines.append(f"{pad}def {cn}({params}):")
+                emit(c, ind + 1)
+            elif ck == "blockdef":
+                lines.append(f"{pad}if len('ab') > 1:")
+                lines.append(f"{pad}    def {cn}():")
+                emit(c, ind + 2)
+                lines.append(f"{pad}    {cn}()")
             else:
                 lines.append(f"{pad}class {cn}:")
-            emit(c, ind + 1)
+                emit(c, ind + 1)
             # call the child so that its reads execute
             if ck == "def" and kind != "class":
                 lines.append(f"{pad}{cn}()")
@@ -223,6 +232,20 @@ def main():
             tested.append(feats)
             owner = variable_of(src)
             cvals, err = cpython_reads(src)
+
+            def ancestors(j):
+                out = []
+                j = SHAPES[shape][j][2]
+                while j is not None:
+                    out.append(j)
+                    j = SHAPES[shape][j][2]
+                return out
+            # one root cause gets one key: a `global` declaration in a function nested in a function that has its own `a`
+            nested_global = any(roles[j] == "G" and any(roles[k] in ("A", "AR", "N") and SHAPES[shape][k][1] in ("def", "blockdef") for k in ancestors(j))
+                                for j in range(len(roles)))
+            orig_feats = feats
+            if nested_global:
+                feats = {"global-declared-in-function-nested-in-function-with-own-binding"}
             obs = byp.get(("p", i), {})
             obs_r = byp.get(("q", i), {})
             if len(samples) < 3 and stats["programs"] % 211 == 0:
@@ -234,8 +257,18 @@ def main():
                                       {"shape": shape, "roles": list(roles), "source": src}, size=len(src), text=src)
             for line, si in sorted(reads.items()):
                 if line not in cvals:
+                    # CPython never completed the read (NameError / UnboundLocalError): static judgement only - whatever the
+                    # analysis holds there must still belong to the variable the scoping rules select (never a sibling's local)
                     stats["unbound_skipped"] += 1
-                    continue        # CPython never reached the read or it raised (unbound): compared statically only via rename
+                    own = owner.get(scope_path(shape, si))
+                    allowed = {k for k, sj in consts.items() if owner.get(scope_path(shape, sj)) == own}
+                    o, unk = obs.get(line, ([], False))
+                    if set(o) - allowed:
+                        rep.feature_violation("bound-to-foreign-declaration", feats, f"read of `a` on line {line} in scope {scope_path(shape, si)} (not executable in "
+                                              f"CPython: {err}): the analysis has {sorted(o)}, values {sorted(set(o) - allowed)} belong to a different variable than "
+                                              f"the one Python's rules select (scope {own}); program:\n{src}",
+                                              {"shape": shape, "roles": list(roles), "source": src, "line": line}, size=len(src), text=src)
+                    continue
                 stats["reads"] += 1
                 own = owner.get(scope_path(shape, si))
                 allowed = {k for k, sj in consts.items() if owner.get(scope_path(shape, sj)) == own}
